@@ -71,6 +71,8 @@ class Report:
         st.instances += 1
         st.discharged += 1
         self.distinct.add((rule, construct))
+        if os.environ.get("VERIF_VERBOSE"):
+            print(f"    ok {rule}: {construct} :: {detail}")
         if len(st.samples) < 4:
             st.samples.append(f"{construct}{' :: ' + detail if detail else ''}"[:400])
 
